@@ -39,6 +39,7 @@ def catalogue():
     cat += [("rst", "A"), ("rst", "B"), ("eack", "A"), ("eack", "B"), ("dup",), ("err", 0), ("err", 1), ("timer",), ("shutdown",)]
     cat += [("shutdown-race", k) for k in range(7)]
     cat += [("cancelled-early", 0), ("cancelled-early", 1)]
+    cat += [("followup", 0), ("followup", 1)]
     return cat
 
 
@@ -185,6 +186,29 @@ def mk_events(first, depth, combos3=True):
                             else:
                                 assert out == []
                         S.icmp_error(stack.R2)          # stop the abandoned exchange's retransmissions
+                        last = None
+                    elif kind == "followup":
+                        # a further confirmable request to one of the endpoints: it is transmitted at once unless an exchange with
+                        # that endpoint is really still open (NSTART), and it takes part in everything that follows
+                        ep = pick(EPS, ev[1])
+                        serial[0] += 1
+                        name = "F%d" % serial[0]
+                        busy = any(k[0].sockaddr[:2] == ep[:2] for k in S.mman._active_exchanges)
+                        mf = Message(code=GET, uri_path=[name], _mtype=CON)
+                        mf.remote = S.remote(ep)
+                        n0 = len(S.tr.sent)
+                        rqf = S.ctx.request(mf, handle_blockwise=False)
+                        done[name] = []
+                        rqf.response.add_done_callback(lambda f, name=name: done[name].append(1))
+                        reqs[name] = dict(rq=rqf, msg=mf, ep=ep, outstanding=True, acked=False, result=None)
+                        loop.run_ready()
+                        toks[name] = mf.token
+                        assert all(toks[o] != mf.token for o, r in reqs.items() if o != name and o in toks and r["outstanding"]), "token of an outstanding request reused"
+                        sent_now = [Message.decode(d) for (d, a, t) in S.tr.sent[n0:] if a[:2] == ep[:2]]
+                        if busy:
+                            assert [x for x in sent_now if x.token == mf.token] == [], "second confirmable message to a peer with an open exchange"
+                        else:
+                            assert [x.token for x in sent_now if int(x.code) != 0] == [mf.token], "follow-up request to an idle peer was not transmitted"
                         last = None
                     elif kind == "err":
                         ep = pick(EPS, ev[1])
